@@ -127,7 +127,7 @@ func expect(mode string, beh []string) (nExpected, hijackedAt int) {
 		if isHijack(b) {
 			return k + 1, k
 		}
-		if k == 0 && mode != "plain" && (has(b, "dialerr") || has(b, "downerr") || has(b, "gone")) {
+		if k == 0 && mode != "plain" && (has(b, "dialerr") || has(b, "downerr") || has(b, "downref") || has(b, "gone")) {
 			return 1, -1
 		}
 		if mode == "blind" {
@@ -475,6 +475,14 @@ func run(sc scenario) (body func(), check func(r *vrt.Result) []finding) {
 					downSeen = append(downSeen, downObs{strings.Join(req.Header["Warning"], "\n"), req.Header.Get("X-Req-Mut")})
 					if has(behOf("0", "0"), "downerr") {
 						// the downstream proxy hangs up instead of answering: the other way into the 502 path
+						b.Close()
+						return
+					}
+					if has(behOf("0", "0"), "downref") {
+						// the downstream proxy refuses the CONNECT (round 9): its answer is the response of this
+						// exchange - the response modifier runs on it once and the client receives it
+						b.Write([]byte("HTTP/1.1 407 Proxy Authentication Required\r\nProxy-Authenticate: Basic realm=\"down\"\r\nContent-Length: 0\r\n\r\n"))
+						io.Copy(io.Discard, br)
 						b.Close()
 						return
 					}
@@ -940,6 +948,9 @@ func run(sc scenario) (body func(), check func(r *vrt.Result) []finding) {
 				if has(b, "rterr") || has(b, "dialerr") || has(b, "downerr") {
 					want = 502
 				}
+				if has(b, "downref") {
+					want = 407
+				}
 				if o.statuses[idx] != want && !unroutable { // (the statement does not fix the status of a request nobody routed)
 					add("wrong_status:"+tag+":"+bt, "exchange %d (%s): client received status %d, want %d", k, b, o.statuses[idx], want)
 				}
@@ -1173,6 +1184,10 @@ func scenarios(tier string) []scenario {
 		out = append(out, scenario{Mode: "blind", Beh: []string{b0}, After: true})
 	}
 	// the downstream proxy hangs up instead of answering the forwarded CONNECT (the second way into the 502 path)
+	// ... or refuses it with a 407 (round 9): the refusal is the response of the exchange, modifiers run once
+	for _, b0 := range []string{"downref", "downref+reserr", "downref+hijack-res", "reqerr+downref", "downref+mut"} {
+		out = append(out, scenario{Mode: "blind", Beh: []string{b0}, Down: true}, scenario{Mode: "blind", Beh: []string{b0}, Down: true, After: true})
+	}
 	for _, b0 := range []string{"downerr", "downerr+reserr", "downerr+hijack-res", "reqerr+downerr"} {
 		out = append(out, scenario{Mode: "blind", Beh: []string{b0}, Down: true}, scenario{Mode: "blind", Beh: []string{b0}, Down: true, After: true})
 	}
@@ -1268,7 +1283,7 @@ func added(sc scenario) bool {
 	}
 	for i, b := range sc.Beh {
 		for _, p := range strings.Split(b, "+") {
-			if p == "mut" || p == "post" || p == "gone" || p == "downerr" || p == "closing" {
+			if p == "mut" || p == "post" || p == "gone" || p == "downerr" || p == "downref" || p == "closing" {
 				return true
 			}
 		}
@@ -1490,7 +1505,7 @@ func main() {
 	rep.Coverage["close_in_flight"] = fmt.Sprintf("%d scenarios in which Proxy.Close() is called (on a thread of its own) by the request modifier of the last exchange of the only connection, which returns once Proxy.Closing() reports true: that exchange x {pass, reqerr, reserr, skip, rterr, mut} alone / after each of {pass, reqerr, reserr, skip, rterr, mut} on the same connection (also pipelined); a blind CONNECT (direct / downstream proxy / dial or downstream failure); the last of one or two exchanges inside an intercepted tunnel (plaintext; TLS: one); the whole oracle applies to that exchange unchanged, and Close() must have returned at the end", nClosing)
 	rep.Coverage["scripted_random_source"] = fmt.Sprintf("%d scenarios in which crypto/rand.Reader is a scripted reader for the execution: all draws pairwise different 8-byte values that differ in byte p only (p = 0..7: common prefix of p and common suffix of 7-p bytes) x differing in the low bits / in the high nibble only x common byte value; shapes: two concurrent plain connections with two exchanges each plus a later one, two intercepted plaintext tunnels, a blind tunnel beside a plain connection and a later one (thorough: also three exchanges on one connection, pipelined beside a second connection, tunnel with two inner exchanges); oracle: all context ids of the execution and the session ids of different connections pairwise different", nDraws)
 	rep.Coverage["request_spellings"] = fmt.Sprintf("%d spellings = target form %v x Host header %v x version %v; each x 7 behaviours (pass, route = the request modifier names the host of a request that names none, skip, reqerr, route+reserr, hijack-req, route+hijack-res) as a single exchange, keep-alive spellings followed by every spelling on the same connection, every spelling as the first request inside an intercepted tunnel", len(allSpellings()), spellForms, spellHosts, spellVersions)
-	rep.Coverage["bounds"] = fmt.Sprintf("%d scenarios (%d of them from the audit, AUDIT.md): plain mode with all behaviour sequences (30 behaviours incl. combinations: errors with one- and multi-line messages, two errors on one response, skip round trip combined with the other context marks in both orders, a RoundTripper answering on a clone of the request, modifiers that change the messages, requests with a body that a skipped or failed round trip leaves unread, hijackers whose modifier also fails, clients that close behind their request; the eleven newest paired with the eight basic ones) up to length %d, blind CONNECT x 16 behaviours (direct / through a downstream proxy), MITM with plaintext / TLS inside x CONNECT behaviours x inner behaviours; optional second concurrent connection (plain pass, or with behaviours / an intercepted tunnel of its own), optional later connection after all others have ended, pipelining (also of a request behind the hijacked one); %d scenarios over the spelling of the request (target form x Host header presence x protocol version, incl. requests that name no host and that only a request modifier makes routable); every schedule with <= %d deviations (one less for TLS scenarios; sequences of three exchanges: <= 1; thorough, the audit's scenarios and scenarios with a second concurrent connection: <= 2)", len(scen), nAdded, map[string]int{"quick": 2, "thorough": 3}[tier], nSpelled, map[string]int{"quick": 1, "thorough": 3}[tier])
+	rep.Coverage["bounds"] = fmt.Sprintf("%d scenarios (%d of them from the audit, AUDIT.md): plain mode with all behaviour sequences (30 behaviours incl. combinations: errors with one- and multi-line messages, two errors on one response, skip round trip combined with the other context marks in both orders, a RoundTripper answering on a clone of the request, modifiers that change the messages, requests with a body that a skipped or failed round trip leaves unread, hijackers whose modifier also fails, clients that close behind their request; the eleven newest paired with the eight basic ones) up to length %d, blind CONNECT x 16 behaviours (direct / through a downstream proxy; the downstream proxy answers 200, hangs up, or refuses with a 407), MITM with plaintext / TLS inside x CONNECT behaviours x inner behaviours; optional second concurrent connection (plain pass, or with behaviours / an intercepted tunnel of its own), optional later connection after all others have ended, pipelining (also of a request behind the hijacked one); %d scenarios over the spelling of the request (target form x Host header presence x protocol version, incl. requests that name no host and that only a request modifier makes routable); every schedule with <= %d deviations (one less for TLS scenarios; sequences of three exchanges: <= 1; thorough, the audit's scenarios and scenarios with a second concurrent connection: <= 2)", len(scen), nAdded, map[string]int{"quick": 2, "thorough": 3}[tier], nSpelled, map[string]int{"quick": 1, "thorough": 3}[tier])
 	rep.Coverage["bounds"] = fmt.Sprint(rep.Coverage["bounds"]) + fmt.Sprintf("; %d scenarios in which the scenario owns the proxy's random source (pairwise different 8-byte draws differing in one byte, every position, low bits / high nibble)", nDraws)
 	rep.Coverage["explanation"] = "each execution runs the real proxy.go/context.go over simnet under the gosim scheduler with recording modifiers; the clause that no context remains retrievable is judged through the public API (martian.NewContext on every request the modifiers saw)"
 	rep.Assumptions = []string{"round trips go through a synchronous harness RoundTripper (which validates header fields like http.Transport)", "TLS inside the tunnel uses crypto/tls unmodified on simnet connections", "unsynchronised accesses (context/session id generation, context table) are covered by the auxiliary free-running -race pass (sampling)"}
